@@ -275,14 +275,76 @@ class IsInWindow(FunctionContract):
             yield dict(M=[[rng.random() < 0.3 for _ in range(npts)] for _ in range(npoly)], npts=npts)
 
 
+class _Q:
+    """a float quantity of which the code only asks `q < tolerance`: the answer is a symbolic predicate"""
+    def __init__(self, b):
+        self.b = b
+
+    def __lt__(self, other):
+        return self.b
+
+
+class _XRow:
+    def __init__(self, same, i):
+        self.same, self.i = same, i
+
+    def __sub__(self, o):
+        return _XDiff(self.same[self.i][o.i])
+
+
+class _XDiff:
+    def __init__(self, b):
+        self.b = b
+
+    def __pow__(self, k):
+        return self
+
+    def sum(self, axis=None, dtype=None, out=None, **kw):
+        return _Q(self.b)
+
+
+class _XArr:
+    def __init__(self, same):
+        self.same = same
+
+    def __getitem__(self, key):
+        return _XRow(self.same, key[0])
+
+
+class _Cm:
+    def __init__(self, arr, i):
+        self.arr, self.i = arr, i
+
+    def __sub__(self, o):
+        return _CmDiff(self.arr.samecm[self.i][o.i])
+
+    def __add__(self, o):
+        return _Q(self.arr.negsum[self.i][o.i])
+
+
+class _CmDiff:
+    def __init__(self, b):
+        self.b = b
+
+    def __abs__(self):
+        return _Q(self.b)
+
+
+class _CmArr:
+    def __init__(self, samecm, negsum):
+        self.samecm, self.negsum = samecm, negsum
+
+    def __getitem__(self, i):
+        return _Cm(self, i)
+
+
 @register("C12")
 class SetUseCaps(FunctionContract):
     """set_use_caps: exactly the listed bits (plus the old ones with add=True), minus later duplicates of a selected cap"""
     name = "set_use_caps"
     target = "pydl.pydlutils.mangle:set_use_caps"
     level = "B"
-    nl_mode = "nra"
-    bound = "polygons with 1..3 caps, every index list of length 0..3 over the caps, symbolic previous use-mask, add / allow_doubles / allow_neg_doubles, symbolic cap vectors and cm (all reals)"
+    bound = "polygons with 1..3 caps, every index list of length 0..2 (3 thorough) over the caps, symbolic previous use-mask, add / allow_doubles / allow_neg_doubles; the three float tests between caps i,j (same direction, same cm, cm sum below tol) are arbitrary symmetric predicates"
     max_paths = 20000
     budget_s = 240
     job_budget_s = 500
@@ -305,46 +367,57 @@ class SetUseCaps(FunctionContract):
 
     def inputs(self):
         nc, lst, (add, dbl, neg) = self.case
-        x = np.empty((nc, 3), dtype=object)
-        cm = np.empty((nc,), dtype=object)
-        for k in range(nc):
-            cm[k] = sym_real("cm%d" % k)
-            for c in range(3):
-                x[k, c] = sym_real("x%d_%d" % (k, c))
-        return dict(x=x, cm=cm, old=sym_pyint("old"), index_list=list(lst), add=add, allow_doubles=dbl, allow_neg_doubles=neg)
+        samex = [[None] * nc for _ in range(nc)]
+        samecm = [[None] * nc for _ in range(nc)]
+        negsum = [[None] * nc for _ in range(nc)]
+        for i in range(nc):
+            for j in range(i, nc):
+                samex[i][j] = samex[j][i] = sym_bool("samex_%d_%d" % (i, j))
+                samecm[i][j] = samecm[j][i] = sym_bool("samecm_%d_%d" % (i, j))
+                negsum[i][j] = negsum[j][i] = sym_bool("negsum_%d_%d" % (i, j))
+        return dict(geom=dict(nc=nc, samex=samex, samecm=samecm, negsum=negsum), old=sym_pyint("old"), index_list=list(lst), add=add,
+                    allow_doubles=dbl, allow_neg_doubles=neg)
 
-    def requires(self, x, cm, old, index_list, add, allow_doubles, allow_neg_doubles):
-        return S.AND(old >= 0, old < 2 ** len(cm))
+    def requires(self, geom, old, index_list, add, allow_doubles, allow_neg_doubles):
+        return S.AND(old >= 0, old < 2 ** geom["nc"])
 
-    def call(self, fn, x, cm, old, index_list, add, allow_doubles, allow_neg_doubles):
-        poly = types.SimpleNamespace(ncaps=len(cm), x=x, cm=cm, use_caps=old)
+    def call(self, fn, geom, old, index_list, add, allow_doubles, allow_neg_doubles):
+        nc = geom["nc"]
+        if "x" in geom:
+            x, cm = geom["x"], geom["cm"]
+        else:
+            x, cm = _XArr(geom["samex"]), _CmArr(geom["samecm"], geom["negsum"])
+        poly = types.SimpleNamespace(ncaps=nc, x=x, cm=cm, use_caps=old)
         r = fn(poly, list(index_list), add=add, tol=1.0e-10, allow_doubles=allow_doubles, allow_neg_doubles=allow_neg_doubles)
         return (r, poly.use_caps)
 
-    def ensures(self, result, x, cm, old, index_list, add, allow_doubles, allow_neg_doubles):
+    def ensures(self, result, geom, old, index_list, add, allow_doubles, allow_neg_doubles):
         ret, stored = result
-        nc = len(cm)
+        nc = geom["nc"]
         tol = 1.0e-10
 
         def bit(v, k):
             if isinstance(v, SBV):
                 return bool(SBool(z3.Extract(k, k, v.z) == z3.BitVecVal(1, 1)))
             return bool((int(v) >> k) & 1)
+
+        def dup(i, j):
+            if "x" in geom:
+                x, cm = geom["x"], geom["cm"]
+                if not float(np.sum((x[i] - x[j]) ** 2)) < tol ** 2:
+                    return False
+                return abs(cm[i] - cm[j]) < tol or ((cm[i] + cm[j]) < tol and not allow_neg_doubles)
+            if not bool(geom["samex"][i][j]):
+                return False
+            return bool(geom["samecm"][i][j]) or (bool(geom["negsum"][i][j]) and not allow_neg_doubles)
         want = [(add and bit(old, k)) or (k in index_list) for k in range(nc)]
         if not allow_doubles:
             for i in range(nc):
                 if want[i]:
                     for j in range(i + 1, nc):
-                        if want[j]:
-                            d2 = sum((x[i, c] - x[j, c]) * (x[i, c] - x[j, c]) for c in range(3))
-                            if bool(d2 < tol ** 2):
-                                dc = cm[i] - cm[j]
-                                same = bool(S.ite(dc >= 0, dc, -dc) < tol) if S.is_sym(dc) else abs(dc) < tol
-                                negd = bool((cm[i] + cm[j]) < tol) and not allow_neg_doubles
-                                if same or negd:
-                                    want[j] = False
+                        if want[j] and dup(i, j):
+                            want[j] = False
         got = [bit(stored, k) for k in range(nc)]
-        hi_clear = True
         if isinstance(stored, SBV):
             hi_clear = bool(SBool(z3.LShR(stored.z, z3.BitVecVal(nc, 64)) == 0))
         else:
@@ -358,5 +431,5 @@ class SetUseCaps(FunctionContract):
             base = [np.array([0.0, 0.0, 1.0]), np.array([0.0, 1.0, 0.0]), np.array([1.0, 0.0, 0.0])]
             x = np.array([base[rng.randint(0, 2)] for _ in range(nc)])
             cm = np.array([rng.choice([1.0, 1.0, -1.0, 0.5]) for _ in range(nc)])
-            yield dict(x=x, cm=cm, old=rng.getrandbits(nc), index_list=[rng.randint(0, nc - 1) for _ in range(rng.randint(0, 3))],
+            yield dict(geom=dict(nc=nc, x=x, cm=cm), old=rng.getrandbits(nc), index_list=[rng.randint(0, nc - 1) for _ in range(rng.randint(0, 3))],
                        add=rng.random() < 0.5, allow_doubles=rng.random() < 0.3, allow_neg_doubles=rng.random() < 0.3)
